@@ -1365,6 +1365,10 @@ def neg(cond: Term) -> Term:
     if cond[0] == "cmp":
         inv = {"==": "!=", "!=": "==", "<": ">=", ">=": "<", ">": "<=", "<=": ">", "is": "is not", "is not": "is", "in": "not in", "not in": "in"}
         return ("cmp", inv[cond[1]], cond[2], cond[3])
+    if cond[0] == "and" and all(_is_cond(x) for x in cond[1:]):
+        return disj([neg(x) for x in cond[1:]])
+    if cond[0] == "or" and all(_is_cond(x) for x in cond[1:]):
+        return conj([neg(x) for x in cond[1:]])
     return ("not", cond)
 
 
